@@ -1,10 +1,10 @@
 #!/bin/bash
 # usage: refactor_check.sh — applies every behaviour-preserving refactoring patch in /verif/refactors to /repo in turn and runs ALL quick
-# checks on it; any alarm is a false alarm of the machinery (the patches were confirmed to compile and pass the suite).
+# checks on it (ALLCHECK=./allcheck_wt.sh uses a scratch worktree instead of /repo); any alarm is a false alarm of the machinery (the patches were confirmed to compile and pass the suite).
 cd /verif
 bad=0
 for p in refactors/*.diff; do
-  out=$(./allcheck.sh /verif/$p)
+  out=$(${ALLCHECK:-./allcheck.sh} /verif/$p)
   n=$(echo "$out" | grep -o "checks raising an alarm: [0-9]*" | grep -o "[0-9]*$")
   if echo "$out" | grep -q PATCH-DOES-NOT-APPLY; then echo "$(basename $p): does not apply to HEAD (skipped)"; continue; fi
   echo "$(basename $p): alarms=$n"
